@@ -425,7 +425,7 @@ var repoVectors = [][2]string{
 var handShapes = [][2]string{
 	{"a@b.cd@e.fg", "DD"}, {"/x@y.z", "s"}, {"id@123.456", "N"}, {"a@ b", "n"}, {"@", "n"}, {"@@", "nn"}, {"a@@b.c", "nn"},
 	{"x@y z", "u"}, {"x@y", "L"}, {"x@y.", "T"}, {"x@y.z", "D"}, {"foo@bar.com.", "D"}, {"a@b..c", "b"}, {"a@b.-c", "b"},
-	{"a@1x.y2", "f"}, {"a@1", "f"}, {"a@1.", "f"}, {"a@12", "f"}, {"a@1.x", "D"}, {"a.@b.c", "n"}, {"a@.b.c", "n"},
+	{"a@1x.y2", "f"}, {"a@1", "N"}, {"a@1.", "f"}, {"a@12", "N"}, {"a@1.x", "D"}, {"a.@b.c", "n"}, {"a@.b.c", "n"},
 	{"x a@b.c", "D"}, {"/ a@b.c", "D"}, {"/p.q@r.st", "s"}, {"a@b@c.de", "uD"}, {"a@b.c/d@e.f", "Ds"}, {"é@b.c", "n"},
 	{"a@b.c d@e", "DL"}, {"a@b.c d@e.", "DT"}, {"a@b c@d", "uL"}, {"-a@b.c", "D"}, {"10@10.0.0.1", "N"}, {"a@10.0.0.1.", "f"},
 	{"a@b_.c-", "D"}, {"a@b. c", "b"}, {"a@b.", "T"}, {"a@b..", "b"},
